@@ -16,7 +16,9 @@ def run(ctx):
              Cond("simple/negative-replication-refused-unchanged", "c13", "h_simple_refuse", {}, to),
              *[Cond(f"table/listed={m}/tables<={2 if q else 3}/replication -1..len+1", "c13", "h_table",
                     {"VF_TABMAX": 2 if q else 3, "VF_LISTED": m}, to) for m in ("00", "01", "10", "11")],
-             Cond("ill-typed-replication-number-refused-unchanged", "c13", "h_illtyped", {}, to)]
+             Cond("ill-typed-replication-number-refused-unchanged", "c13", "h_illtyped", {}, to),
+             Cond("updated stream restarts at the installed seed (after 0..2 draws; same replication twice; equal seeds)",
+                  "c13", "h_draws", {}, to)]
     if not q:
         conds.append(Cond("simple/3-streams/two-hash-environments+listing-orders", "c13", "h_simple", {"VF_NS": 3}, to))
     ctx.crosshair(conds)
